@@ -85,6 +85,14 @@ def retype(rnd, W):
         return W.astype(rnd.choice((np.int64, np.int32, np.int8)))
     if r < 0.30:
         return W.astype(np.float32)
+    if r < 0.42:
+        return np.asfortranarray(W)  # column-major, as loaded from MATLAB files
+    if r < 0.47 and W.ndim == 2:
+        return W.T.copy().T  # a transposed view: F-contiguous, does not own its data
+    if r < 0.52 and W.ndim == 2:
+        big = np.zeros((2 * W.shape[0], 2 * W.shape[1]), dtype=W.dtype)
+        big[::2, ::2] = W
+        return big[::2, ::2]  # a strided, non-contiguous view
     return W
 
 
@@ -193,7 +201,7 @@ OVERRIDES = {
     'ls2ci': lambda r, n: ([[[0, 1], [2, 3, 4]]], {'zeroindexed': True}),
     'grid_communities': lambda r, n: ([labels(r, n)], {}),
     'partition_distance': lambda r, n: ([labels(r, n), labels(r, n)], {}),
-    'consensus_und': lambda r, n: (lambda D: ([(D + D.T) / 2, 0.3], {'reps': 2}))(matrix(r, n, False, False, False, False) / 6.0),
+    'consensus_und': lambda r, n: (lambda D: ([(D + D.T) / 2, r.choice((0, 0.0, 0.3, 0.5))], {'reps': 2}))(matrix(r, n, False, False, False, r.random() < 0.6) / 6.0),
     'charpath': lambda r, n: ([_distmat(r, n)], {'include_diagonal': r.random() < 0.5, 'include_infinite': r.random() < 0.5}),
     'rout_efficiency': lambda r, n: ([_distmat(r, n)], {'transform': r.choice((None, 'inv'))}),
     'cycprob': lambda r, n: ([np.round(np.array([[[r.random() for _ in range(3)] for _ in range(n)] for _ in range(n)]) * 3)], {}),
